@@ -37,3 +37,14 @@ Definition check_gsx (c : gsx_case) : bool :=
   let '(D, ns, labeled, cidxl, m, k, noises, rm, n, mapping, t) := c in
   let t0 := gsx_loop (mat_get D) ns labeled (fun c => nth c cidxl O) m k noises in
   trace_eqb (if rm then remap n mapping t0 else t0) t.
+
+(* TypiClust: (n, mapping, cluster labels, typicality keys [cluster][sample], key of 1.0, key of -inf, k,
+   initial cluster sizes, flat noise stream, Some trace | None = the query raised UnboundLocalError) *)
+Definition tc_case := (nat * list nat * list nat * list (list Z) * Z * Z * nat * list Z * list Z * option (list (nat * list val)))%type.
+Definition check_typiclust (c : tc_case) : bool :=
+  let '(n, mapping, clabel, T, one_key, neg_key, k, sizes, stream, obs) := c in
+  match typiclust n mapping clabel (fun cl j => mat_get T cl j) one_key neg_key k sizes stream, obs with
+  | Some t, Some t' => trace_eqb t t'
+  | None, None => true
+  | _, _ => false
+  end.
